@@ -54,6 +54,9 @@ type Queryable struct {
 	// OnCallback, if set, is invoked at every storage callback with the site name
 	// (used to cancel the query context at the k-th callback).
 	OnCallback func(site string)
+	// LastCtx is the context of the most recent Querier call (a storage that blocks until
+	// its context is cancelled waits on it).
+	LastCtx context.Context
 	// HonourHints: Select returns only the samples inside [hints.Start, hints.End], as a
 	// storage is allowed to (C16: the hinted range must be sufficient).
 	HonourHints bool
@@ -82,6 +85,7 @@ func (q *Queryable) fault(site string) bool {
 }
 
 func (q *Queryable) Querier(ctx context.Context, mint, maxt int64) (storage.Querier, error) {
+	q.LastCtx = ctx
 	if q.fault("Querier") {
 		return nil, q.FaultErr
 	}
